@@ -62,6 +62,16 @@ def terms():
           And(x < y, p), Eq(g(a), Nat(0)), Eq(Comb(Lambda(u, u), a), a), Forall(F, Eq(F(x), F(x))), Suc(x), Eq(x * y, y * x), q(x), Forall(z, Implies(q(z), q(z + Nat(1)))),
           Eq(h(f), x), Lambda(z, Lambda(u, g(u) + z)), Eq(Nat(0), Nat(0)), Eq(IF(p, a, a), a), Exists(z, And(q(z), z <= x)), Eq(Lambda(z, z), Lambda(z, z + Nat(0))),
           Forall(u, Eq(u, u)), Not(Eq(f(x), Nat(2))), Or(p, Eq(x, Nat(0))), Eq(f(f(x)), x), h(Lambda(z, f(z) * Nat(2))), Eq(x - y + y, x)]
+    # nested binders whose types are fixed only by later uses (the final substitution has to resolve chains of internal variables)
+    xf, hh, cN = Var('xf', TFun(NatType, BoolType)), Var('hh', TFun(TFun(NatType, BoolType), BoolType)), Var('cN', NatType)
+    G2 = Var('G2', TFun(TFun(NatType, NatType), NatType))
+    DECL['cN'] = NatType
+    ts += [Lambda(xf, Lambda(hh, And(hh(xf), xf(cN)))), Lambda(hh, Lambda(xf, And(hh(xf), xf(cN)))), Forall(F, Exists(G2, Eq(G2(F), F(cN)))),
+           Lambda(xf, Lambda(hh, Lambda(z, And(hh(xf), xf(z + cN))))), Exists(xf, Forall(hh, Implies(hh(xf), xf(Nat(0))))), Lambda(F, Lambda(G2, Lambda(z, Eq(G2(F) + z, F(z)))))]
+    # schematic variables (declared and undeclared alike must get one type for all occurrences)
+    from kernel.term import SVar
+    sp, sn = SVar('sp', BoolType), SVar('sn', NatType)
+    ts += [And(sp, Eq(sn, Nat(0))), Eq(sn + x, x + sn), Implies(sp, And(sp, q(sn))), Forall(z, Eq(z + sn, sn + z)), And(Eq(sn, Nat(0)), x < sn)]
     _T['terms'] = ts
     return ts
 
@@ -256,6 +266,14 @@ def ill_skeletons():
                 extra.append(Comb(Var('F', TFun(T1, BoolType)), Var('v', T2)))
                 extra.append(Comb(Abs('z', T1, Bound(0)), Var('v', T2)))
                 extra.append(Comb(Abs('z', None, Comb(Comb(Const('equals', None), Bound(0)), Var('u', T1))), Var('v', T2)))
+    # one undeclared schematic / ordinary variable used at two different types
+    from kernel.term import SVar
+    zero = Const('zero', NatType)
+    for mkv in (lambda: SVar('u', None), lambda: Var('u', None)):
+        extra.append(conj(mkv(), Comb(Comb(Const('equals', None), mkv()), zero)))
+        extra.append(conj(Comb(P, mkv()), mkv()))
+        extra.append(Comb(Comb(Const('equals', None), Comb(Var('f', TFun(NatType, NatType)), mkv())), Comb(mkv(), zero)))
+        extra.append(Abs('z', None, conj(Comb(Comb(Const('equals', None), mkv()), Bound(0)), Comb(Comb(Const('conj', None), mkv()), Bound(0)))))
     return extra + [Comb(x(), x()), Abs('z', None, Comb(Bound(0), Bound(0))), Comb(f, p), Comb(Comb(Const('plus', None), p), Var('y', NatType)),
             Comb(Var('x', NatType), Var('x', BoolType)), Comb(Comb(Const('equals', None), Var('w', None)), Comb(Var('w', None), Var('y', NatType))), Comb(Const('Suc', None), p),
             Comb(Comb(Const('equals', None), f), p), Comb(Abs('z', NatType, Bound(0)), p)]
@@ -308,6 +326,22 @@ def run_ill(u, out):
             except Exception as e:
                 out['cex'].append({'kind': 'infer-exception', 'part': 'ill', 'i': i, 'detail': 'ill-typed skeleton %r: %s: %s' % (sk, type(e).__name__, str(e)[:80])})
                 continue
+        vt = {}
+
+        def coll(t):
+            if t.is_var() or t.is_svar():
+                vt.setdefault(('?' if t.is_svar() else '') + t.name, set()).add(repr(t.T))
+            elif t.is_comb():
+                coll(t.fun)
+                coll(t.arg)
+            elif t.is_abs():
+                coll(t.body)
+        coll(res)
+        clash = sorted(k for k, v in vt.items() if len(v) > 1)
+        if clash:
+            out['cex'].append({'kind': 'infer-variable-two-types', 'part': 'ill', 'i': i,
+                               'detail': 'skeleton %r is inferred as %r, in which %s occurs at several types %s' % (sk, res, clash[0], sorted(vt[clash[0]]))})
+            continue
         if ind_type(res) is None:
             out['cex'].append({'kind': 'infer-illtyped', 'part': 'ill', 'i': i, 'detail': 'ill-typed skeleton %r is inferred as %r, which does not type-check' % (sk, res)})
     out['samples'].append({'ill_typed_skeleton': repr(ill_skeletons()[0])})
